@@ -32,10 +32,10 @@ type c17rec struct {
 }
 
 type c17step struct {
-	Op    string `json:"op"` // make cancel waitfire sleep
-	Id    string `json:"id,omitempty"`
-	Long  bool   `json:"long,omitempty"`
-	Ms    int    `json:"ms,omitempty"`
+	Op    string    `json:"op"` // make cancel waitfire sleep
+	Id    string    `json:"id,omitempty"`
+	Long  bool      `json:"long,omitempty"`
+	Ms    int       `json:"ms,omitempty"`
 	Inner []c17step `json:"inner,omitempty"` // for make: requests issued by the handler of this timer's firing
 }
 
@@ -51,8 +51,8 @@ type c17mon struct {
 	badFlag  int32
 	firedC   chan string
 	racing   bool
-	active   int // firing handlers in progress
-	reqMu    sync.Mutex // requests are issued one at a time (they still overlap with firings)
+	active   int            // firing handlers in progress
+	reqMu    sync.Mutex     // requests are issued one at a time (they still overlap with firings)
 	opSeq    map[string]int // per id: bumped at the start and end of every request and at every firing
 }
 
